@@ -10,6 +10,7 @@ Oracles: batch count by simulation of the documented rule; the index stream cut
 into windows of N (permutation / no repeats / balanced usage / cyclic order);
 repeated iteration compared array by array.
 """
+import functools
 import itertools
 import math
 
@@ -335,6 +336,29 @@ def _diff(case, a, b):
 
 
 # ---------------------------------------------------------------- strategies
+#
+# Building Hypothesis strategies is far more expensive than running a case
+# here, so the composites below draw from a handful of module-level strategies
+# or from sampled_from strategies cached per value tuple (`pick`); uniform
+# sampling is used for small ranges because st.integers is heavily biased
+# towards its lower bound.  Index 0 is the shrink target, so every sequence
+# lists its simplest value first.
+
+BOOL = st.booleans()
+SEEDS = st.one_of(st.sampled_from(range(21)),
+                  st.sampled_from([1, 0, 2**31 - 1, 2**31, 2**32 - 1, 12345]),
+                  st.integers(0, 2**32 - 1),
+                  st.integers(2**16, 2**32 - 1))
+CALLS = ['kwargs', 'hparams', 'defaults']
+
+
+@functools.lru_cache(maxsize=None)
+def _sampled(seq):
+  return st.sampled_from(seq)
+
+
+def pick(draw, seq):
+  return draw(_sampled(tuple(seq)))
 
 
 def _bounds(tier):
@@ -343,63 +367,79 @@ def _bounds(tier):
   return dict(nmax=120, bmax=150, emax=6, smax=30)
 
 
-SEEDS = st.one_of(st.integers(0, 2**32 - 1), st.integers(0, 20),
-                  st.sampled_from([0, 1, 2**31 - 1, 2**31, 2**32 - 1]))
+def draw_size(draw, nmax):
+  kind = pick(draw, ['full', 'full', 'small', 'tiny'])
+  if kind == 'full':
+    return pick(draw, range(2, nmax + 1))
+  if kind == 'small':
+    return pick(draw, range(2, 13))
+  return pick(draw, [2, 1, 3, 5, 1, 8])
 
 
-def _batch_sizes(n, total, bmax):
-  special = sorted({1, 2, max(1, n - 1), n, n + 1, 2 * n, 2 * n + 1, 3 * n + 1,
-                    max(1, total - 1), total, total + 1})
-  divisors = [d for d in range(1, total + 1) if total % d == 0]
-  non_divisors = [d for d in range(2, n) if n % d] or [n + 1]
-  return st.one_of(st.integers(1, bmax), st.sampled_from(non_divisors),
-                   st.sampled_from(non_divisors),
-                   st.integers(n + 1, max(bmax, 3 * n + 1)),
-                   st.sampled_from(special), st.sampled_from(divisors))
+def draw_batch_size(draw, n, total, bmax):
+  kind = pick(draw, ['any', 'non_divisor', 'non_divisor', 'above_n', 'special',
+                     'divisor'])
+  if kind == 'any':
+    return pick(draw, range(1, bmax + 1))
+  if kind == 'non_divisor':
+    return pick(draw, [d for d in range(2, n) if n % d] or [n + 1])
+  if kind == 'above_n':
+    return pick(draw, range(n + 1, max(bmax, 3 * n + 1) + 1))
+  if kind == 'special':
+    return pick(draw, sorted({1, 2, max(1, n - 1), n, n + 1, 2 * n, 2 * n + 1,
+                              3 * n + 1, max(1, total - 1), total, total + 1}))
+  return pick(draw, [d for d in range(1, total + 1) if total % d == 0])
 
 
-def _sizes(nmax):
-  return st.one_of(st.sampled_from(list(range(2, nmax + 1))),
-                   st.sampled_from(list(range(2, nmax + 1))),
-                   st.integers(1, 12))
+def draw_steps(draw, smax):
+  """0..smax with 0 (no batches at all) kept to a few per cent."""
+  if pick(draw, [0, 1, 2, 3]) == 3:
+    return pick(draw, [1, 0, 2])
+  return pick(draw, range(1, smax + 1))
 
 
 @st.composite
-def hp_strategy(draw, tier, shuffle='any', seeds='any', finite_only=False):
+def hp_strategy(draw, tier, shuffle='any', seeds='any'):
   bd = _bounds(tier)
-  n = draw(_sizes(bd['nmax']))
-  epochs = draw(st.sampled_from([None, None, None, 1, 1, 2, 2, 3, 3, 4] +
-                                list(range(4, bd['emax'] + 1))))
-  total = n * (epochs if epochs is not None else draw(st.integers(1, 3)))
-  b = draw(_batch_sizes(n, total, bd['bmax']))
-  drop = draw(st.booleans())
-  plain = st.integers(0, bd['smax'])
+  n = draw_size(draw, bd['nmax'])
+  epochs = pick(draw, [2, 1, None, 3, 1, None, 4, 2, None, 1] +
+                list(range(4, bd['emax'] + 1)) + [3])
+  total = n * (epochs if epochs is not None else pick(draw, [1, 2, 3]))
+  b = draw_batch_size(draw, n, total, bd['bmax'])
+  drop = draw(BOOL)
   if epochs is None:
-    # around k passes over the data
-    k = draw(st.integers(1, 4))
-    near = st.integers(max(0, -(-k * n // b) - 1), -(-k * n // b) + 1)
-    steps = draw(plain | near if finite_only else
-                 st.one_of(st.none(), plain, near))
+    kind = pick(draw, ['near', 'none', 'plain', 'none', 'near'])
+    if kind == 'near':  # around k passes over the data
+      c = -(-pick(draw, [1, 2, 3, 4]) * n // b)
+      steps = pick(draw, range(max(0, c - 1), c + 2))
+    else:
+      steps = None if kind == 'none' else draw_steps(draw, bd['smax'])
   else:
-    c = ref_count(n, b, epochs, None, drop)
-    near = st.integers(max(0, c - 2), c + 2)
-    steps = draw(st.one_of(st.none(), st.none(), plain, near))
+    kind = pick(draw, ['none', 'near', 'plain', 'none'])
+    if kind == 'near':  # around the epoch-derived count
+      c = ref_count(n, b, epochs, None, drop)
+      steps = pick(draw, range(max(0, c - 2), c + 3))
+    else:
+      steps = None if kind == 'none' else draw_steps(draw, bd['smax'])
   if shuffle == 'any':
-    skip = draw(st.sampled_from([False, False, False, True]))
+    skip = pick(draw, [False, False, True, False])
+  elif shuffle == 'mostly_on':
+    skip = pick(draw, [False] * 9 + [True])
   else:
     skip = shuffle == 'off'
-  if seeds == 'int':
+  if seeds == 'int' or pick(draw, [1, 0, 2, 3]) != 0:
     seed = draw(SEEDS)
   else:
-    seed = draw(st.one_of(st.none(), SEEDS, SEEDS, SEEDS))
+    seed = None
   case = {'n': n, 'batch_size': b, 'num_epochs': epochs, 'num_steps': steps,
           'drop_remainder': drop, 'skip_shuffle': skip, 'seed': seed,
-          'call': draw(st.sampled_from(['kwargs', 'hparams', 'defaults'])),
-          'extra': draw(st.sampled_from([False, False, True]))}
+          'call': pick(draw, CALLS), 'extra': pick(draw, [False, False, True])}
   if epochs is None and steps is None:
-    k = draw(st.integers(0, 4))
-    case['take'] = draw(st.integers(0, bd['smax']) |
-                        st.integers(-(-k * n // b), -(-k * n // b) + 2))
+    if pick(draw, [0, 1]):
+      c = -(-pick(draw, [1, 2, 3, 4]) * n // b)
+      case['take'] = pick(draw, range(c, c + 3))
+    else:
+      case['take'] = draw_steps(draw, bd['smax'])
   return case
 
 
@@ -411,28 +451,34 @@ def min_windows(n):
 @st.composite
 def reshuffle_strategy(draw, tier):
   bd = _bounds(tier)
-  n = draw(st.integers(2, bd['nmax']) | st.integers(2, 12) |
-           st.integers(ADJACENT_N, bd['nmax']))
-  w = min_windows(n) + draw(st.integers(0, 3))
+  kind = pick(draw, ['full', 'small', 'adjacent'])
+  if kind == 'full':
+    n = pick(draw, range(2, bd['nmax'] + 1))
+  elif kind == 'small':
+    n = pick(draw, range(2, 13))
+  else:
+    n = pick(draw, range(ADJACENT_N, bd['nmax'] + 1))
+  w = min_windows(n) + pick(draw, [0, 1, 2, 3])
   total = n * w
-  b = draw(_batch_sizes(n, n * draw(st.integers(1, 3)), bd['bmax']))
-  mode = draw(st.sampled_from(['epochs', 'epochs', 'steps', 'both', 'endless']))
-  drop = draw(st.booleans())
+  b = draw_batch_size(draw, n, n * pick(draw, [1, 2, 3]), bd['bmax'])
+  mode = pick(draw, ['epochs', 'steps', 'epochs', 'both', 'endless'])
+  drop = draw(BOOL)
   seed = draw(SEEDS)
-  seed2 = draw(SEEDS.filter(lambda s: s != seed))
+  seed2 = draw(SEEDS)
+  if seed2 == seed:
+    seed2 = (seed + 1) % 2**32
   case = {'n': n, 'batch_size': b, 'num_epochs': None, 'num_steps': None,
           'drop_remainder': drop, 'skip_shuffle': False, 'seed': seed,
-          'seed2': seed2,
-          'call': draw(st.sampled_from(['kwargs', 'hparams', 'defaults'])),
-          'extra': draw(st.sampled_from([False, False, False, True]))}
-  nb = -(-total // b) + draw(st.integers(0, 2))
+          'seed2': seed2, 'call': pick(draw, CALLS),
+          'extra': pick(draw, [False, False, False, True])}
+  nb = -(-total // b) + pick(draw, [0, 1, 2])
   if mode == 'epochs':
     # one more pass when the remainder is dropped, so W windows stay complete
     case['num_epochs'] = w + (1 if drop and total % b else 0)
   elif mode == 'steps':
     case['num_steps'] = nb
   elif mode == 'both':
-    case['num_epochs'] = w + draw(st.integers(1, 2))
+    case['num_epochs'] = w + pick(draw, [1, 2])
     case['num_steps'] = nb
   else:
     case['take'] = nb
@@ -516,7 +562,7 @@ CHECKS = [
     Check(name='batch_count', run=run_count,
           strategy=lambda tier: hp_strategy(tier),
           labels=labels, nontrivial=nontrivial,
-          budget={'quick': 20000, 'thorough': 100000},
+          budget={'quick': 8000, 'thorough': 100000},
           doc='number of batches == documented function of (N, batch_size, '
               'num_epochs, num_steps, drop_remainder), simulated independently; '
               'endless stream does not end; every batch has exactly batch_size '
@@ -524,7 +570,7 @@ CHECKS = [
     Check(name='window_permutation', run=run_windows,
           strategy=lambda tier: hp_strategy(tier),
           labels=labels, nontrivial=nontrivial,
-          budget={'quick': 28000, 'thorough': 140000},
+          budget={'quick': 11000, 'thorough': 140000},
           doc='index stream cut into windows of N: complete windows are '
               'permutations, trailing partial window has no repeats, the first '
               'ceil(N/B) batches cover the dataset, usage counts differ by <= 1 '
@@ -532,20 +578,20 @@ CHECKS = [
     Check(name='skip_shuffle_cyclic', run=run_cyclic,
           strategy=lambda tier: hp_strategy(tier, shuffle='off'),
           labels=labels, nontrivial=nontrivial,
-          budget={'quick': 8000, 'thorough': 40000},
+          budget={'quick': 3000, 'thorough': 40000},
           doc='skip_shuffle=True: the stream is 0,1,..,N-1,0,1,.. whatever the '
               'seed'),
     Check(name='reshuffle', run=run_reshuffle,
           strategy=reshuffle_strategy,
           labels=labels, nontrivial=nontrivial_reshuffle,
-          budget={'quick': 10000, 'thorough': 50000},
+          budget={'quick': 4000, 'thorough': 50000},
           doc='successive windows are re-shuffled (not all identical once that '
               'is decisive; adjacent ones differ for N>=18) and two different '
               'seeds do not give the same stream'),
     Check(name='seeded_repeat', run=run_repeat,
-          strategy=lambda tier: hp_strategy(tier, seeds='int'),
+          strategy=lambda tier: hp_strategy(tier, shuffle='mostly_on', seeds='int'),
           labels=labels, nontrivial=nontrivial_repeat,
-          budget={'quick': 14000, 'thorough': 70000},
+          budget={'quick': 6000, 'thorough': 70000},
           doc='fixed seed: 2nd and 3rd iteration of a view, a second view of '
               'the same dataset and a view of an equal dataset built through '
               'the other calling form all yield identical batches'),
